@@ -637,10 +637,12 @@ impl<'a> Parser<'a> {
     /// assert_eq!(parser.remainder(), "foo\n\t bar");
     ///
     /// ```
-    pub const fn trim(mut self) -> Self {
-        parsing! {self, FromBoth;
-            self.str = crate::string::trim(self.str);
-        }
+    pub const fn trim(self) -> Self {
+        // trimming each end separately so that `start_offset`
+        // is only advanced by what was removed from the start.
+        let mut this = self.trim_start().trim_end();
+        this.parse_direction = ParseDirection::FromBoth;
+        this
     }
 
     /// Removes whitespace from the start of the parsed string.
@@ -714,13 +716,15 @@ impl<'a> Parser<'a> {
     /// assert_eq!(parser.remainder(), "world");
     /// ```
     ///
-    pub const fn trim_matches<'p, P>(mut self, needle: P) -> Self
+    pub const fn trim_matches<'p, P>(self, needle: P) -> Self
     where
         P: Pattern<'p>,
     {
-        parsing! {self, FromBoth;
-            self.str = crate::string::trim_matches(self.str, needle);
-        }
+        // trimming each end separately so that `start_offset`
+        // is only advanced by what was removed from the start.
+        let mut this = self.trim_start_matches(needle).trim_end_matches(needle);
+        this.parse_direction = ParseDirection::FromBoth;
+        this
     }
 
     /// Repeatedly removes all instances of `needle` from the start of the parsed string.
